@@ -298,7 +298,7 @@ def gen_case(rng, maxlen, stream):
     ops.append(["findall", ALL_PAIRS, 0])
     for t in rng.sample(TABLES, 2):
         ops.append(["table", t])
-    return dict(ops=ops, stream=stream)
+    return dict(ops=ops, stream=stream, preview=rng.random() < 0.35)
 
 
 def generate(rng, tier):
@@ -386,12 +386,34 @@ def _nest(kitems):
     return nested
 
 
+class _Preview(object):
+    """an observer that looks kerning up from inside its Groups.Changed / Kerning.Changed callback (what a
+    kerning preview does); by the cache-transparency theorem this must not change any later answer"""
+
+    def __init__(self, font):
+        self.font = font
+        self.calls = 0
+        font.dispatcher.addObserver(self, "changed", "Groups.Changed", None)
+        font.dispatcher.addObserver(self, "changed", "Kerning.Changed", None)
+
+    def changed(self, notification):
+        self.calls += 1
+        font = self.font
+        if font._kerning is None or font._groups is None:
+            return
+        for pair in (("A", "B"), ("B", "A"), ("C", "D")):
+            font.kerning.find(pair)
+
+
 class World(object):
-    def __init__(self):
+    def __init__(self, preview=False):
         from defcon import Font
         self.Font = Font
+        self.preview = preview
         self.font = Font()
         self.keep = [self.font]     # BaseObject.__del__ unregisters observers: keep everything alive
+        if preview:
+            self.keep.append(_Preview(self.font))
         self.tmp = None
         self.path = None
         self.n = 0
@@ -416,6 +438,8 @@ class World(object):
         self.ext_kerning(kerning)
         self.font = self.Font(path)
         self.keep.append(self.font)
+        if self.preview:
+            self.keep.append(_Preview(self.font))
 
     def ext_groups(self, groups):
         if self.path is None:
@@ -602,7 +626,7 @@ def check_step(w, ops, i, out, stats):
 
 
 def run_impl(case):
-    w = World()
+    w = World(preview=bool(case.get("preview")))
     outs = []
     viol = []
     stats = {}
